@@ -53,47 +53,67 @@ fn upgrade_counter_ok(pv: PV) -> bool {
     }
 }
 
+/// one `handle_timer` from an arbitrary state of the given version family;
+/// returns (pre-state, version state afterwards, request sent)
+#[cfg(kani)]
+fn c12_timer_check(src: &Src, pre: Pre, acts: Acts) -> (Pre, PV, bool) {
+    let post = sh::state(src);
+    let (expect, sends) = ref_timer(pre.pv, pre.reach, pre.tries);
+    assert!(post.protocol_version == expect, "C12: timer transition of the version state machine");
+    assert!(upgrade_counter_ok(post.protocol_version), "C12: upgrade counter stays within 1..=8");
+    assert!(acts.sent.is_some() == sends, "C12: a request is sent iff the source is not reset");
+    if let Some(p) = &acts.sent {
+        let v = version_bits(p);
+        assert!(mode_bits(p) == 3, "C12: requests are in client mode");
+        match expect {
+            PV::V4 => {
+                assert!(v == 4 && p.len() == 48, "C12: an NTPv4 association only sends plain NTPv4");
+                assert!(!has_upgrade_marker(p), "C12: plain NTPv4 requests carry no upgrade marker");
+            }
+            PV::V4UpgradingToV5 { .. } => {
+                assert!(v == 4 && p.len() == 48, "C12: automatic mode sends NTPv4 requests while upgrading");
+                assert!(has_upgrade_marker(p), "C12: upgrade requests carry the upgrade marker");
+            }
+            PV::UpgradedToV5 | PV::V5 => {
+                assert!(v == 5, "C12: an (upgraded) NTPv5 association only sends NTPv5");
+                assert!(p.len() >= V5_LEN && p[48] == 0xF5 && p[49] == 0xFF, "C12: NTPv5 requests identify the draft");
+                let mut ok = true;
+                let mut i = 0;
+                while i < 23 {
+                    ok &= p[52 + i] == DRAFT[i];
+                    i += 1;
+                }
+                assert!(ok, "C12: draft identification text");
+            }
+        }
+    }
+    (pre, post.protocol_version, acts.sent.is_some())
+}
+
 sharness! {
     #[kani::unwind(30)]
     fn c12_timer() {
         stubs::symbolic_clock();
-        let (mut src, pre) = any_source(PvClass::Any);
-        let acts = collect(src.handle_timer());
-        let post = sh::state(&src);
-        let (expect, sends) = ref_timer(pre.pv, pre.reach, pre.tries);
-        assert!(post.protocol_version == expect, "C12: timer transition of the version state machine");
-        assert!(upgrade_counter_ok(post.protocol_version), "C12: upgrade counter stays within 1..=8");
-        assert!(acts.sent.is_some() == sends, "C12: a request is sent iff the source is not reset");
-        if let Some(p) = &acts.sent {
-            let v = version_bits(p);
-            assert!(mode_bits(p) == 3, "C12: requests are in client mode");
-            match expect {
-                PV::V4 => {
-                    assert!(v == 4 && p.len() == 48, "C12: an NTPv4 association only sends plain NTPv4");
-                    assert!(!has_upgrade_marker(p), "C12: plain NTPv4 requests carry no upgrade marker");
-                }
-                PV::V4UpgradingToV5 { .. } => {
-                    assert!(v == 4 && p.len() == 48, "C12: automatic mode sends NTPv4 requests while upgrading");
-                    assert!(has_upgrade_marker(p), "C12: upgrade requests carry the upgrade marker");
-                }
-                PV::UpgradedToV5 | PV::V5 => {
-                    assert!(v == 5, "C12: an (upgraded) NTPv5 association only sends NTPv5");
-                    assert!(p.len() >= V5_LEN && p[48] == 0xF5 && p[49] == 0xFF, "C12: NTPv5 requests identify the draft");
-                    let mut ok = true;
-                    let mut i = 0;
-                    while i < 23 {
-                        ok &= p[52 + i] == DRAFT[i];
-                        i += 1;
-                    }
-                    assert!(ok, "C12: draft identification text");
-                }
-            }
-        }
-        kani::cover!(matches!(pre.pv, PV::UpgradedToV5) && matches!(post.protocol_version, PV::V4) && acts.sent.is_some(), "fallback to NTPv4 after two missed polls");
-        kani::cover!(matches!(pre.pv, PV::UpgradedToV5) && matches!(post.protocol_version, PV::UpgradedToV5) && pre.reach & 3 == 2, "one missed poll: still NTPv5");
-        kani::cover!(matches!(pre.pv, PV::V4UpgradingToV5 { .. }) && acts.sent.is_some(), "upgrade request sent");
-        kani::cover!(matches!(pre.pv, PV::V5) && acts.sent.is_some() && pre.reach & 3 == 0, "configured NTPv5 never falls back");
-        kani::cover!(matches!(pre.pv, PV::UpgradedToV5) && acts.sent.is_none(), "upgraded source reset instead of falling back");
+        let (mut src, pre) = any_source(PvClass::V4Family);
+        let acts = timer_step!(v4fam, src, pre);
+        let (pre, post, sent) = c12_timer_check(&src, pre, acts);
+        kani::cover!(matches!(pre.pv, PV::V4UpgradingToV5 { .. }) && sent, "upgrade request sent");
+        kani::cover!(matches!(pre.pv, PV::V4) && sent, "plain NTPv4 request sent");
+        kani::cover!(matches!(pre.pv, PV::V4UpgradingToV5 { .. }) && !sent, "upgrading source reset");
+    }
+}
+
+sharness! {
+    #[kani::unwind(30)]
+    fn c12_timer_v5() {
+        stubs::symbolic_clock();
+        let (mut src, pre) = any_source(PvClass::V5Family);
+        let acts = timer_step!(v5fam, src, pre);
+        let (pre, post, sent) = c12_timer_check(&src, pre, acts);
+        kani::cover!(matches!(pre.pv, PV::UpgradedToV5) && matches!(post, PV::V4) && sent, "fallback to NTPv4 after two missed polls");
+        kani::cover!(matches!(pre.pv, PV::UpgradedToV5) && matches!(post, PV::UpgradedToV5) && pre.reach & 3 == 2, "one missed poll: still NTPv5");
+        kani::cover!(matches!(pre.pv, PV::V5) && sent && pre.reach & 3 == 0, "configured NTPv5 never falls back");
+        kani::cover!(matches!(pre.pv, PV::UpgradedToV5) && !sent, "upgraded source reset instead of falling back");
     }
 }
 
